@@ -137,7 +137,7 @@ fn provider(prov: &Value) -> impl Fn(Option<u32>) -> Result<biscuit_auth::Public
 }
 
 /// The four ways a serialized token is admitted under a root key (or a root key provider).
-fn admit<KP: biscuit_auth::RootKeyProvider + Clone>(bytes: &[u8], root: KP) -> Vec<(&'static str, Result<Option<Biscuit>, String>)> {
+pub fn admit<KP: biscuit_auth::RootKeyProvider + Clone>(bytes: &[u8], root: KP) -> Vec<(&'static str, Result<Option<Biscuit>, String>)> {
     let mut out = Vec::new();
     out.push((
         "container",
